@@ -39,3 +39,14 @@ def event(role, ev, **fields):
         _state["files"][role] = f
     f.write(json.dumps(record) + "\n")
     f.flush()
+
+
+def writer_state(chunk_writers):
+    """Best-effort projection of the ordered chunk writers; never raises"""
+    try:
+        return (
+            [w._current_index for w in chunk_writers],
+            [sorted(w._chunks) for w in chunk_writers],
+        )
+    except Exception:
+        return [], []
